@@ -543,6 +543,6 @@ def _history(draw, maxops):
 def plan(tier):
   if tier == "quick":
     return [Enum("short-histories", lambda: enum_short("quick"), shards=16),
-            Hyp("histories", lambda: _history(60), examples=3000, shards=16)]
+            Hyp("histories", lambda: _history(60), examples=2400, shards=16)]
   return [Enum("short-histories", lambda: enum_short("thorough"), shards=16),
           Hyp("histories", lambda: _history(200), examples=40000, shards=16)]
